@@ -33,6 +33,9 @@ def gen_stream(rng, tid, scope):
 
     evs = [[1000, "OHx", obs.i32(-1, tid, 0), False]]
     clock = 1000
+    # now and then a stream whose first region holds events older than the very
+    # first event of the stream (their place is the start of the file)
+    before_start = scope != "fail" and rng.random() < 0.12
     nbase = rng.choice([5, 30, 200, 1500])
     nreg = rng.randint(1, 8)
     reg_at = sorted(rng.sample(range(1, nbase + 1), min(nreg, nbase)))
@@ -67,6 +70,10 @@ def gen_stream(rng, tid, scope):
                 else:
                     c = rng.randint(lo, clock) if rng.random() < 0.8 else rng.choice([e[0] for e in evs[max(1, len(evs) - 1 - d):]] + [lo])
                 inside.append(body(c))
+            if before_start and i == reg_at[0] and inside and not future:
+                for e in inside[:rng.randint(1, len(inside))]:
+                    e[0] = rng.randint(900, 999)
+                info["before_start"] = True
             if future and inside:
                 inside[0][0] = min(e[0] for e in inside)     # first event carries the lowest clock
                 clock = max(e[0] for e in inside)
@@ -140,7 +147,8 @@ def run_case(i):
     env = {"OVNI_VERIF_HEAPBUF": "1"} if build.flavour == "asan" else {}
     wd = os.path.join(chk.scratch, "c%d" % i)
     out = {"i": i, "skip": False, "viol": None, "scope": scope, "n": n, "need": need, "inconclusive": None,
-           "events": sum(len(s[1]) for s in streams), "regions": sum(len(s[2]["regions"]) for s in streams)}
+           "events": sum(len(s[1]) for s in streams), "regions": sum(len(s[2]["regions"]) for s in streams),
+           "before_start": sum(1 for s in streams if s[2].get("before_start"))}
     try:
         before = {}
         for tid, evs, info in streams:
@@ -215,7 +223,7 @@ def main(argv):
     cases = list(range(400 if quick else 12000))
     if chk.replay:
         cases = [json.load(open(chk.replay))["replay"]["case"]]
-    n = ok = fail = ev = reg = 0
+    n = ok = fail = ev = reg = bs = 0
     shapes = set()
     for o in core.pmap(run_case, cases, chunksize=2):
         if o.get("skip"):
@@ -223,7 +231,7 @@ def main(argv):
         if o["inconclusive"]:
             chk.note_inconclusive(o["inconclusive"]); continue
         n += 1
-        ev += o["events"]; reg += o["regions"]
+        ev += o["events"]; reg += o["regions"]; bs += o["before_start"]
         ok += 1 if o["scope"] == "ok" else 0
         fail += 1 if o["scope"] == "fail" else 0
         shapes.add((o["scope"], min(o["need"], 50) // 5, o["n"] >= 10 ** 6))
@@ -232,11 +240,12 @@ def main(argv):
     cov = {"evaluations": n, "distinct_nontrivial": len(shapes),
            "rule": "traces of 1-3 streams: sorted base of 5-1500 uniquely numbered events (marks, bursts, jumbo bursts, many "
                    "equal clocks) with 1-8 OU[ OU] regions of 0-20 events (sorted or not internally) whose place is up to "
-                   "2000 events back; look-back -n from just above twice the needed depth (ring wraps) to 10^6; in-scope-"
+                   "2000 events back (now and then older than the first event of the stream); look-back -n from just above twice the needed depth (ring wraps) to 10^6; in-scope-"
                    "for-failure cases need more than 2n. distinct_nontrivial = distinct (scope, depth class, default window) "
                    "shapes",
            "samples": [{"scope": "ok", "oracle": "decoded result == Python stable sort by clock of the original events"}],
-           "sorted_ok_cases": ok, "must_fail_cases": fail, "events": ev, "regions": reg}
+           "sorted_ok_cases": ok, "must_fail_cases": fail, "events": ev, "regions": reg,
+           "streams_with_region_events_older_than_first_event": bs}
     return chk.finish(cov, assumptions=[
         "tie stability relies on glibc qsort being a merge sort; an unstable result would be reported as a finding",
         "between n/2 and 2n events of look-back nothing is asserted (window capacity is an implementation detail)"])
